@@ -2151,11 +2151,20 @@ impl Element {
                 }
                 ps.skip_whitespace();
                 let end_tag_end_pos = ps.position();
-                if let Some(x) = ps.skip_until_before(">") {
-                    if x.len() > 0 {
+                match ps.skip_until_before(">") {
+                    Some(x) => {
+                        if x.len() > 0 {
+                            ps.add_warning(
+                                ParseErrorKind::UnexpectedCharacter,
+                                end_tag_end_pos..ps.position(),
+                            );
+                        }
+                    }
+                    None => {
+                        // the source ends inside the end tag
                         ps.add_warning(
-                            ParseErrorKind::UnexpectedCharacter,
-                            end_tag_end_pos..ps.position(),
+                            ParseErrorKind::IncompleteTag,
+                            end_tag_start_location.start..ps.position(),
                         );
                     }
                 }
